@@ -240,7 +240,7 @@ Print Assumptions C20_reg_no_panic.
 (* the code before efcd108 (fixed in efcd108): RegisterCounter and RegisterGauge racing for one name; both miss the Load, the counter is published,
    the gauge's LoadOrStore finds it and the unchecked type assertion panics *)
 Definition w3_opts : list ropts :=
-  [{| ro_name := 97%N; ro_kind := KCounter; ro_nl := 1 |}; {| ro_name := 97%N; ro_kind := KGauge; ro_nl := 1 |}].
+  [{| ro_name := 97%N; ro_kind := KCounter; ro_nl := [0%nat] |}; {| ro_name := 97%N; ro_kind := KGauge; ro_nl := [0%nat] |}].
 Theorem C20_reg_no_panic_refuted :
   let x := rrun_sched Defective (rsys0 w3_opts) [0;1;0;1]%nat in
   rdone_all x = true /\ map rt_pc (rths x) = [RPDone (RROk 0); RPDone RRPanic].
@@ -248,8 +248,8 @@ Proof. vm_compute. split; reflexivity. Qed.
 Print Assumptions C20_reg_no_panic_refuted.
 
 Example C20_reg_nonvacuous :
-  let os := [{| ro_name := 97%N; ro_kind := KCounter; ro_nl := 1 |}; {| ro_name := 97%N; ro_kind := KCounter; ro_nl := 1 |};
-             {| ro_name := 97%N; ro_kind := KGauge; ro_nl := 1 |}; {| ro_name := 98%N; ro_kind := KCounter; ro_nl := 2 |}] in
+  let os := [{| ro_name := 97%N; ro_kind := KCounter; ro_nl := [0%nat] |}; {| ro_name := 97%N; ro_kind := KCounter; ro_nl := [0%nat] |};
+             {| ro_name := 97%N; ro_kind := KGauge; ro_nl := [0%nat] |}; {| ro_name := 98%N; ro_kind := KCounter; ro_nl := [0%nat; 1%nat] |}] in
   let x := rrun_sched Repaired (rsys0 os) [0;1;2;3;1;0;2;3]%nat in
   rdone_all x = true /\
   map rt_pc (rths x) = [RPDone (RROk 0); RPDone (RROk 0); RPDone RRErrType; RPDone (RROk 1)] /\
@@ -631,3 +631,19 @@ Theorem C20_gauge_series_exact_refuted :
   shown KGauge (sh x) tA + retired_of KGauge (sh x) tA = 0 /\ vemitted_to c w1_progs tA = 5.
 Proof. vm_compute. repeat split; reflexivity. Qed.
 Print Assumptions C20_gauge_series_exact_refuted.
+
+(* ---------------------------------------------------------------- label schema is positional *)
+(* a second registrant whose label-name list differs from the registered one in ANY way (permutation, subset, superset,
+   duplicate) never obtains the metric: for every interleaving, a registrant told "ok" holds an object whose label list is
+   exactly its own (conclusion of C20_reg_unique); the comparison is list equality *)
+Theorem C20_schema_positional : forall a b, schema_eqb a b = true <-> a = b.
+Proof. exact schema_eqb_eq. Qed.
+Print Assumptions C20_schema_positional.
+
+Example C20_schema_nonvacuous :
+  let o l := {| ro_name := 97%N; ro_kind := KCounter; ro_nl := l |} in
+  let x := rrun_sched Repaired (rsys0 [o [0;1]; o [1;0]; o [0]; o [0;1;2]; o [0;0]; o [0;1]]%nat) (repeat 0 2 ++ repeat 1 2 ++ repeat 2 2 ++ repeat 3 2 ++ repeat 4 2 ++ repeat 5 2)%nat in
+  map rt_pc (rths x) = [RPDone (RROk 0); RPDone RRErrSchema; RPDone RRErrSchema; RPDone RRErrSchema; RPDone RRErrSchema; RPDone (RROk 0)] /\
+  rerrs (rsh x) = 4.
+Proof. vm_compute. split; reflexivity. Qed.
+Print Assumptions C20_schema_nonvacuous.
